@@ -16,22 +16,26 @@ structure Inv (st : St) : Prop where
   fresh : ∀ h, st.next ≤ h → st.fds h = none
 
 /-- the host can serve a resume from cookie `c` (after which `rest0` follows) with `size` bytes:
-    the next record fits, and either `lseek64` accepts the cookie or (fallback) the cookie is a
-    record's and every record of the directory fits a batch -/
-def Serveable (H : Host) (size c : Nat) (rest0 : Dir) : Prop :=
+    the next record fits, and — unless the cached cookie hits (`hit`), which needs no positioning —
+    either `lseek64` accepts the cookie or (linear-scan fallback) the cookie is a record's and every
+    record up to and including that one fits a batch (the scan re-reads them with the request's
+    `size`; records after the cookie are not re-read) -/
+def Serveable (H : Host) (size c : Nat) (rest0 : Dir) (hit : Bool) : Prop :=
   Fits size rest0 ∧
-  ((c ≤ I64_MAX ∧ H.seekErr c = none) ∨
-   ((c > I64_MAX ∨ H.seekErr c = some EINVAL) ∧ c ≠ 0 ∧ ∀ e ∈ H.dir, reclen e ≤ size))
+  (hit = false →
+    ((c ≤ I64_MAX ∧ H.seekErr c = none) ∨
+     ((c > I64_MAX ∨ H.seekErr c = some EINVAL) ∧ c ≠ 0 ∧
+        ∀ pre e, H.dir = pre ++ e :: rest0 → e.cookie = c → ∀ x ∈ pre ++ [e], reclen x ≤ size)))
 
 theorem fetch_post {H : Host} (wf : WF H.dir) (hq : H.eofQuirk = false) {size c : Nat} {rest0 : Dir}
-    (hp : Pos H.dir c rest0) (hs : Serveable H size c rest0) (hit : Bool) (fd0 : Fd)
+    (hp : Pos H.dir c rest0) (hit : Bool) (hs : Serveable H size c rest0 hit) (fd0 : Fd)
     (hpos : hit = true → fd0.pos = c) :
     ∃ b fd1, fetch H hit fd0 size c = (.ok b, fd1) ∧ Post H.dir rest0 b fd1 := by
   obtain ⟨hfits, hpath⟩ := hs
   cases hit with
   | true => exact fetch_seek_post wf hq hp hfits true fd0 hpos (fun h => by cases h)
   | false =>
-    rcases hpath with hseek | ⟨hbad, hne, hall⟩
+    rcases hpath rfl with hseek | ⟨hbad, hne, hall⟩
     · exact fetch_seek_post wf hq hp hfits false fd0 hpos (fun _ => hseek)
     · -- linear scan from the start
       rcases hp with ⟨h0, _⟩ | ⟨pre, tgt, hd, hc⟩
@@ -45,7 +49,8 @@ theorem fetch_post {H : Host} (wf : WF H.dir) (hq : H.eofQuirk = false) {size c 
             · simp [hgt]
             · simp [hgt, herr]
         rw [hscan]
-        apply scan_post wf hq hall hd hc (H.dir.length + 2) { fd0 with pos := 0 } [] H.dir
+        apply scan_post wf hq (hall pre tgt hd hc) (fun e r h => hfits [] e r (by simp [h]) rfl) hd hc
+          (H.dir.length + 2) { fd0 with pos := 0 } [] H.dir
         · simp
         · left; exact ⟨rfl, rfl⟩
         · intro x hx; simp at hx
@@ -65,14 +70,16 @@ structure Served (H : Host) (st st' : St) (plus : Bool) (h size : Nat) (rest0 : 
 
 theorem readReq_served {H : Host} (wf : WF H.dir) (hq : H.eofQuirk = false) (st : St) (inv : Inv st)
     (plus : Bool) (h size c : Nat) (rest0 : Dir) (hp : Pos H.dir c rest0) (hsz : size ≠ 0)
-    (hh : st.noOpendir = true ∨ ∃ fd, st.fds h = some fd) (hs : Serveable H size c rest0) :
+    (hh : st.noOpendir = true ∨ ∃ fd, st.fds h = some fd)
+    (hs : Serveable H size c rest0 (!st.noOpendir && st.cache h == some c)) :
     ∃ st' out, readReq H st plus h size c none = (st', .ok out) ∧ Served H st st' plus h size rest0 out := by
   unfold readReq doReaddir
   simp only [hsz, if_false]
   cases hno : st.noOpendir with
   | true =>
     simp only [if_true, Bool.not_true, Bool.false_and]
-    obtain ⟨b0, fd1, hf, hpost1⟩ := fetch_post wf hq hp hs false {} (fun h => by cases h)
+    have hs' : Serveable H size c rest0 false := by rw [hno] at hs; exact hs
+    obtain ⟨b0, fd1, hf, hpost1⟩ := fetch_post wf hq hp false hs' {} (fun h => by cases h)
     rw [hf]
     simp only
     obtain ⟨⟨dots, t, hsplit, hdots, hpos, hbt⟩, hlast⟩ := hpost1
@@ -101,7 +108,8 @@ theorem readReq_served {H : Host} (wf : WF H.dir) (hq : H.eofQuirk = false) (st 
       intro hc
       have : st.cache h = some c := by simpa using hc
       exact inv.sound h fd0 c hfd this
-    obtain ⟨b0, fd1, hf, hpost1⟩ := fetch_post wf hq hp hs (st.cache h == some c) fd0 hpos0
+    have hs' : Serveable H size c rest0 (st.cache h == some c) := by rw [hno] at hs; exact hs
+    obtain ⟨b0, fd1, hf, hpost1⟩ := fetch_post wf hq hp (st.cache h == some c) hs' fd0 hpos0
     rw [hf]
     simp only
     obtain ⟨⟨dots, t, hsplit, hdots, hpos, hbt⟩, hlast⟩ := hpost1
